@@ -66,12 +66,24 @@ func Setup() {
 	add("//@a", spec.AbsP(dos, spec.S("attribute", tA)))
 	add("//text()", spec.AbsP(dos, spec.S("child", tText)))
 	add("../*", spec.Rel(spec.S("parent", tNode), spec.S("child", tAny)))
+	// '//' in the middle of a path, after forward and reverse axes
+	for _, ax := range []string{"preceding-sibling", "ancestor", "ancestor-or-self", "preceding", "following-sibling", "following", "descendant", "parent"} {
+		add(ax+"::*//*", spec.Rel(spec.S(ax, tAny), dos, spec.S("child", tAny)))
+		add(ax+"::node()//text()", spec.Rel(spec.S(ax, tNode), dos, spec.S("child", tText)))
+	}
+	add("preceding-sibling::*//@*", spec.Rel(spec.S("preceding-sibling", tAny), dos, spec.S("attribute", tAny)))
+	add("..//c", spec.Rel(spec.S("parent", tNode), dos, spec.S("child", spec.NameTest("", "c"))))
 	// multi-step compositions
 	add("", spec.Rel(spec.S("parent", tNode), spec.S("following-sibling", tNode)))
 	add("", spec.Rel(spec.S("ancestor", tNode), spec.S("child", tAny)))
 	add("", spec.Rel(spec.S("preceding", tNode), spec.S("following", tAny)))
 	add("", spec.Rel(spec.S("descendant", tAny), spec.S("parent", tNode), spec.S("attribute", tAny)))
 	add("", spec.Rel(spec.S("following-sibling", tAny), spec.S("preceding-sibling", tNode)))
+	for _, ax1 := range []string{"ancestor", "preceding", "preceding-sibling", "following"} {
+		for _, ax2 := range []string{"child", "descendant", "following-sibling", "attribute", "parent", "preceding-sibling", "namespace"} {
+			add("", spec.Rel(spec.S(ax1, tNode), spec.S(ax2, tNode)))
+		}
+	}
 	// absolute paths inside predicates and function arguments, from any context
 	add("", spec.Rel(spec.S("self", tNode, spec.AbsP(spec.S("child", tA)))))
 	add("", spec.Fn("count", spec.AbsP(dos, spec.S("child", tA))))
@@ -148,7 +160,7 @@ func CompareResult(b *hx.Built, r xsel.Result, err error, want spec.Val, wantFai
 }
 
 func genOpts() hx.GenOpts {
-	o := hx.GenOpts{MaxEvents: 4, MaxDepth: 2, Attrs: 1, NS: 1, Other: true, SymNames: true, TopLevel: true}
+	o := hx.GenOpts{MaxEvents: 3, MaxDepth: 2, Attrs: 1, NS: 1, Other: true, SymNames: true, TopLevel: true}
 	if nd.Tier() > 0 {
 		o.MaxEvents, o.MaxDepth, o.Attrs = 6, 3, 2
 	}
@@ -157,7 +169,7 @@ func genOpts() hx.GenOpts {
 
 // RunSteps: every menu step from every context node of every scripted document.
 func RunSteps() {
-	b := hx.Gen(genOpts())
+	b := hx.GenOrSkeleton(genOpts())
 	nd.Assert(b.TieOK, "store-mirrors-script")
 	ctx := nd.Choice(len(b.Doc.Nodes))
 	cur := b.Cursors[ctx]
